@@ -5,7 +5,8 @@ open GateType Circuit
 theorem makeBlockFromSlice_fields {c c' : Circuit} {name : Label} {ins outs : List Label}
     (h : c.makeBlockFromSlice name ins outs = .ok c') :
     ∃ gs, c' = { c with blocks := c.blocks ++ [⟨name, ins, gs, outs⟩] } ∧
-      c.blocks.any (fun b => b.name == name) = false ∧ ∀ o ∈ outs, ins.contains o = false → o ∈ gs := by
+      c.blocks.any (fun b => b.name == name) = false ∧ (∀ o ∈ outs, ins.contains o = false → o ∈ gs) ∧
+      (∀ x ∈ gs, x ∈ outs ∨ ∃ og, c.find? x = some og ∧ og.ty ≠ INPUT) := by
   unfold makeBlockFromSlice at h
   split at h
   · cases h
@@ -18,7 +19,7 @@ theorem makeBlockFromSlice_fields {c c' : Circuit} {name : Label} {ins outs : Li
         split at h
         · cases h
         · rename_i gs hsl
-          refine ⟨gs, ?_, by simpa using hnb, ?_⟩
+          refine ⟨gs, ?_, by simpa using hnb, ?_, ?_⟩
           · unfold makeBlock at h
             split at h
             · cases h
@@ -34,6 +35,11 @@ theorem makeBlockFromSlice_fields {c c' : Circuit} {name : Label} {ins outs : Li
             apply sliceLoop_mono _ _ _ _ _ _ hsl
             rw [List.mem_reverse, mem_dedup, List.mem_filter]
             exact ⟨ho, by simpa using hoi⟩
+          · intro x hx
+            rcases sliceLoop_ni _ _ _ _ _ _ hsl x hx with h1 | h1
+            · rw [List.mem_reverse, mem_dedup, List.mem_filter] at h1
+              exact Or.inl h1.1
+            · exact Or.inr h1
 
 theorem find?_append_last {α} (p : α → Bool) (l : List α) (x : α) (h : l.any p = false) (hx : p x = true) :
     (l ++ [x]).find? p = some x := by
@@ -54,11 +60,34 @@ theorem checkGatesExist_mem {c : Circuit} {ls : List Label} {u : Unit} (h : c.ch
     exact (hasGate_iff' c l).mp (List.all_eq_true.mp hall l hl)
   · cases h
 
-/-- **`replace_subcircuit`** keeps the C02 invariant: for well-formed `c` and `sub` and mappings
-with distinct keys (Python dicts), whenever the call returns the result is well formed -/
-theorem replaceSubcircuit_wfs {c sub c' : Circuit} {im om : List (Label × Label)} {ctr ctr' : Nat}
+/-- everything a successful `replace_subcircuit` call went through -/
+structure RSFacts (c sub : Circuit) (im om : List (Label × Label)) (ctr : Nat) (c' c1 c2 c3 c4 : Circuit)
+    (gs order : List Label) : Prop where
+  ren : (im ++ om).foldl renStep (.ok c) = .ok c1
+  keysND : ((im ++ om).map (·.1)).Nodup
+  keysIn : ∀ k ∈ (im ++ om).map (·.1), k ∈ c.labels
+  w1 : WFS c1
+  w2 : WFS c2
+  hc2 : c2 = { c1 with blocks := c1.blocks ++ [⟨"block_for_deleting" ++ hex32 ctr, im.map (·.2), gs, om.map (·.2)⟩] }
+  sliceNI : ∀ x ∈ gs, x ∈ om.map (·.2) ∨ ∃ og, c1.find? x = some og ∧ og.ty ≠ INPUT
+  inv : RBInv c2 c3 gs
+  omvND : (om.map (·.2)).Nodup
+  sOut : ∀ o ∈ om.map (·.2), o ∈ gs
+  omvI : ∀ o ∈ om.map (·.2), (im.map (·.2)).contains o = false
+  noUsers : ∀ g ∈ gs, g ∈ om.map (·.2) ∨ ∀ u ∈ c2.usersOf g, u ∈ gs
+  outs : ∀ o ∈ c2.outputs, o ∈ gs → o ∈ om.map (·.2)
+  perm : order.Perm sub.labels
+  subO : ∀ o ∈ om.map (·.2), o ∈ order
+  subI : ∀ g ∈ sub.gates, g.ty = INPUT → (im.map (·.2)).contains g.label = true
+  imvIn : ∀ i ∈ im.map (·.2), ∃ g ∈ sub.gates, g.label = i ∧ g.ty = INPUT
+  add : order.foldl (addStepR sub (im.map (·.2))) (.ok c3) = .ok c4
+  hc6 : c' = ((om.map (·.2)).foldl (collectOuter c2 gs) []).foldl addUsersStep { c4 with outputs := c2.outputs }
+  cyc : hasCycleCheckFrom c' (some c'.labels) = .ok false
+
+theorem replaceSubcircuit_facts {c sub c' : Circuit} {im om : List (Label × Label)} {ctr ctr' : Nat}
     (hw : WFS c) (hs : WFS sub) (hik : (im.map (·.1)).Nodup) (hok : (om.map (·.1)).Nodup)
-    (h : c.replaceSubcircuit sub im om ctr = .ok (c', ctr')) : WFS c' := by
+    (h : c.replaceSubcircuit sub im om ctr = .ok (c', ctr')) :
+    ∃ c1 c2 c3 c4 gs order, RSFacts c sub im om ctr c' c1 c2 c3 c4 gs order := by
   unfold replaceSubcircuit at h
   simp only at h
   split at h
@@ -79,7 +108,7 @@ theorem replaceSubcircuit_wfs {c sub c' : Circuit} {im om : List (Label × Label
             · cases h
             · split at h
               · cases h
-              · rename_i hsubin
+              · rename_i himty hsubin
                 split at h
                 · cases h
                 · rename_i c1 hren
@@ -136,7 +165,7 @@ theorem replaceSubcircuit_wfs {c sub c' : Circuit} {im om : List (Label × Label
                                     rw [List.map_append, List.nodup_append] at vnd
                                     obtain ⟨_, homvND, hdisjV⟩ := vnd
                                     -- the slice block
-                                    obtain ⟨gs, hc2, hnb, hgs⟩ := makeBlockFromSlice_fields hmk
+                                    obtain ⟨gs, hc2, hnb, hgs, hni⟩ := makeBlockFromSlice_fields hmk
                                     have w2 := makeBlockFromSlice_wfs w1 hmk
                                     have hblk : blk = ⟨"block_for_deleting" ++ hex32 ctr, im.map (·.2), gs, om.map (·.2)⟩ := by
                                       rw [hc2] at hfind
@@ -198,8 +227,27 @@ theorem replaceSubcircuit_wfs {c sub c' : Circuit} {im om : List (Label × Label
                                     have hadd' : order'.foldl (addStepR sub (im.map (·.2))) (.ok c3) = .ok c4 := hadd
                                     have hcyc' := hcyc
                                     rw [hc'] at hcyc'
-                                    refine replace_core w2 inv homvND hSout homvI hno houts hsubO hsubI hadd' ?_ hcyc'
-                                    rw [← hc', hblk]
-                                    rfl
+                                    have himv : ∀ i ∈ im.map (·.2), ∃ g ∈ sub.gates, g.label = i ∧ g.ty = INPUT := by
+                                      intro i hi
+                                      have h1 := himty
+                                      simp only [Bool.not_eq_true, List.any_eq_false] at h1
+                                      have h2 := h1 i hi
+                                      cases hf : sub.find? i with
+                                      | none => simp [hf] at h2
+                                      | some g =>
+                                        obtain ⟨hgm, hgl⟩ := find_some_mem hf
+                                        refine ⟨g, hgm, hgl, ?_⟩
+                                        simpa [hf] using h2
+                                    exact ⟨c1, c2, c3, c4, gs, order', ⟨hren', hkeys, hkin, w1, w2, hc2, hni, inv, homvND,
+                                      hSout, homvI, hno, houts, hperm, hsubO, hsubI, himv, hadd',
+                                      (by rw [← hc', hblk]; rfl), hcyc'⟩⟩
+
+/-- **`replace_subcircuit`** keeps the C02 invariant: for well-formed `c` and `sub` and mappings
+with distinct keys (Python dicts), whenever the call returns the result is well formed -/
+theorem replaceSubcircuit_wfs {c sub c' : Circuit} {im om : List (Label × Label)} {ctr ctr' : Nat}
+    (hw : WFS c) (hs : WFS sub) (hik : (im.map (·.1)).Nodup) (hok : (om.map (·.1)).Nodup)
+    (h : c.replaceSubcircuit sub im om ctr = .ok (c', ctr')) : WFS c' := by
+  obtain ⟨c1, c2, c3, c4, gs, order, F⟩ := replaceSubcircuit_facts hw hs hik hok h
+  exact replace_core F.w2 F.inv F.omvND F.sOut F.omvI F.noUsers F.outs F.subO F.subI F.add F.hc6 F.cyc
 
 end Cirbo
